@@ -35,6 +35,9 @@ func execC01(c *hlib.Ctx, tok []string) string {
 }
 
 func execC01Body(c *hlib.Ctx, tok []string) string {
+	if len(tok) > 0 && tok[0] == "ds.run" {
+		return execC01Set(c, tok) // the series-set level, see c01set.go
+	}
 	if len(tok) != 4 || tok[0] != "dd.run" {
 		return "bad-op"
 	}
@@ -466,6 +469,7 @@ func genC01(c *hlib.Ctx) {
 		c.Count("malformed:huge-timestamps")
 		c.Do(fmt.Sprintf("dd.run none %s d", fmtReplicas(l.reps)), false)
 	}
+	genC01Set(c)
 	if c.Tier == "thorough" {
 		exhaustiveC01(c)
 	}
